@@ -252,3 +252,6 @@ PROPS['C11'] = dict(lean=['Mkdb.Props.C11'], facts=STORE_FACTS, runs=[dict(cmd='
     sig_filter=r'db:shape:.*', claim='pending', note='pending', rule='')
 PROPS['C14'] = dict(lean=['Mkdb.Props.C14'], facts=STORE_FACTS, runs=[dict(cmd='db', proto='db', args=['c14'])],
     sig_filter=r'db:(failed-statement-changed-table|failed-statement-applied-row-prefix|failed-create-left-table|invalid-statement-accepted)', claim='pending', note='pending', rule='')
+
+PROPS['C03'] = dict(lean=['Mkdb.Props.C02'], facts=STORE_FACTS, runs=[dict(cmd='db', proto='db', args=['c03'])],
+    sig_filter=r'db:(image-.*|panic:.*|hang:.*)', claim='pending', note='pending', rule='')
